@@ -291,7 +291,8 @@ func propC09(a *Analysis, r *Registry) {
 			// maximum the value at the last one. Decided on the values returned, wherever the scans
 			// live and however they are written: each result is s.Xs[e] for an index e that (1) starts
 			// at the proper end (0 / len-1), (2) moves by one per iteration, and (3) is advanced only
-			// past zero weights at that same index (the loop continues only while s.Weights[e] == 0).
+			// past zero weights at that same index (the loop continues only while s.Weights[e] == 0), and
+			// (4) is left only at a non-zero weight or once every index has been examined.
 			env := X.EnvFor(fn, "s")
 			fc := X.Under(fn, X.AssumeEq(env.MustParse("s.Sorted"), S.True()), X.AssumeCond(env.MustParse("s.Weights==nil"), false),
 				X.AssumeCond(env.MustParse("len(s.Xs)==0"), false))
@@ -399,13 +400,42 @@ func propC09(a *Analysis, r *Registry) {
 				}
 				// continuation condition: header → back edge
 				hdr := X.phiOf[kat.ID].Block()
-				cont := S.False()
-				for _, p := range kfc.Ctx.LivePreds(hdr) {
-					if kfc.Ctx.Dominates(hdr, p) {
-						cont = S.Or(cont, S.And(kfc.ReachCondFrom(hdr, p), kfc.edgeCond(p, hdr)))
+				cont := kfc.ContinueCond(hdr)
+				wz := S.Cmp("==", S.MakeFn("idx", ws, e), S.Int(0))
+				// (4) the scan is left only at a non-zero weight or with every index examined
+				var kl *Loop
+				for _, l := range kfc.Ctx.Loops() {
+					if l.Header == hdr {
+						kl = l
 					}
 				}
-				wz := S.Cmp("==", S.MakeFn("idx", ws, e), S.Int(0))
+				exhausted := S.Or(S.Cmp("<=", S.MakeFn("len", ws), e), S.Cmp("<=", S.MakeFn("len", xs), e))
+				if dir == "backward" {
+					exhausted = S.Cmp("<", e, S.Int(0))
+				}
+				early := ""
+				if kl == nil {
+					early = "loop not found"
+				} else {
+					for bi := range kl.Body {
+						blk := kfc.Fn.Blocks[bi]
+						for _, sc := range kfc.Ctx.LiveSuccs(blk) {
+							if kl.Body[sc.Index] {
+								continue
+							}
+							ec := S.And(kfc.ReachCondFrom(hdr, blk), kfc.edgeCond(blk, sc))
+							as := []Assumption{{Cond: ec, True: true}}
+							if X.EvalCond(wz, as) == False || X.EvalCond(exhausted, as) == True {
+								continue
+							}
+							early = "it can stop while " + clip(ec.String(), 160) + ", with indices still unexamined"
+						}
+					}
+				}
+				if early != "" {
+					r.Fail("C-scan coverage", construct, b.pos(fn), "the "+dir+" scan does not examine every index: "+early)
+					continue
+				}
 				if X.EvalCond(wz, []Assumption{{Cond: cont, True: true}}) == True {
 					r.OK("C-scan coverage", construct, b.pos(fn), "value taken at an index that starts at the "+map[string]string{"forward": "first", "backward": "last"}[dir]+" element and is advanced only past zero weights at that index")
 				} else {
